@@ -406,6 +406,46 @@ func runC15(r *core.Run) {
 		}
 	}
 	evalSet([]uint64{0, 1<<63 - 1, 1 << 62})
+	// result-independence of the date conversions themselves: convert, let the caller overwrite the Date it was
+	// handed, convert the same instant again (through every entry point that funnels into the same code)
+	for _, ms := range []int64{0, 1, 999, 1000, int64(now) * 1000, 1<<62 + 7} {
+		want := refmodel.BE(uint64(ms), 8)
+		convs := map[string]func() *data.Date{
+			"NewDateFromMillis": func() *data.Date { d, _ := data.NewDateFromMillis(ms); return d },
+			"DateFromTime":      func() *data.Date { d, _ := data.DateFromTime(time.UnixMilli(ms)); return d },
+		}
+		if ms%1000 == 0 && ms/1000 < 1<<32 {
+			sec := ms / 1000
+			convs["NewDateFromUnix"] = func() *data.Date { d, _ := data.NewDateFromUnix(sec); return d }
+			convs["OfflineSignature.ExpiresDate"] = func() *data.Date {
+				o, err := offline_signature.NewOfflineSignature(uint32(sec), 7, kp.Pub, make([]byte, 64), 7)
+				if err != nil {
+					return nil
+				}
+				d, _ := o.ExpiresDate()
+				return d
+			}
+		}
+		for _, first := range []string{"NewDateFromMillis", "DateFromTime", "NewDateFromUnix", "OfflineSignature.ExpiresDate"} {
+			f1, ok := convs[first]
+			if !ok {
+				continue
+			}
+			d1 := f1()
+			if d1 == nil {
+				continue
+			}
+			for i := range d1 {
+				d1[i] ^= 0xA5 // the caller reuses the Date it was handed
+			}
+			for name, f := range convs {
+				r.Evaluations.Add(1)
+				if d2 := f(); d2 != nil && !bytes.Equal(d2[:], want) {
+					bad("date-depends-on-earlier-callers", name, fmt.Sprintf("%d ms converts to %x after an earlier caller overwrote the Date that %s had returned for the same instant (exact %x)", ms, d2[:], first, want))
+				}
+			}
+		}
+	}
 	// result-independence histories (H1/H2) of the time accessors of parsed values
 	independencePass(r, "C15", func(family, call string) bool {
 		if !containsAny(family, "Lease", "OfflineSignature", "RouterInfo", "RouterAddress", "Date") {
